@@ -52,4 +52,5 @@ class C03(Prop):
         return "%s/%s" % (clause, case.meta.get("kind"))
 
 
-PROP = C03()
+import sessmix
+PROP = sessmix.attach(C03(), sessmix.c03_cases, sessmix.c03_oracle, 120, 3000)
